@@ -43,7 +43,20 @@ def main():
     if args.prop not in fams:
         print(f"unknown property {args.prop}")
         return 2
-    return fams[args.prop].run(args.tier, seed, replay=args.replay)
+    try:
+        return fams[args.prop].run(args.tier, seed, replay=args.replay)
+    except Exception as ex:          # the check itself could not be completed against this tree
+        import traceback
+        from .common import Report
+        rep = Report(args.prop, args.tier, seed)
+        rep.violation(dict(kind="check-could-not-complete",
+                           theorem_or_correspondence=f"the correspondence run of {args.prop} (harness exception while "
+                                                     f"driving the tree under test)",
+                           exception=type(ex).__name__ + ": " + str(ex)[:500],
+                           traceback=traceback.format_exc()[-3000:]), no_input=True)
+        rep.coverage = dict(obligations=1, discharged=0, checker_cmd="(not reached)", trusted_base=[],
+                            explanation="the harness raised while driving the tree under test; nothing is shown to hold")
+        return rep.finish()
 
 
 if __name__ == "__main__":
